@@ -10,6 +10,7 @@ import (
 	"math/big"
 	"math/rand"
 	"strings"
+	"sync"
 	"testing"
 
 	"filippo.io/edwards25519"
@@ -817,7 +818,7 @@ func (s *vC32State) base58Case() {
 // TestVerif_C32: one-time keys and addresses round-trip correctly.
 func TestVerif_C32(t *testing.T) {
 	r := verifkit.Start(t, "C32", "exploration")
-	r.SetRule("seeded random wallets (seed-derived and edge scalars), masks and output indexes (0..2^64, every varint length boundary): one ghost derivation + view per case; " +
+	r.SetRule("seeded random wallets (seed-derived and edge scalars), masks and output indexes (0..2^64, every varint length boundary): one ghost derivation + view per case, sequentially and from 16 goroutines at once; " +
 		"random Key/Hash/Signature/CosiSignature values and near-valid hex texts through String/FromString/JSON; printed addresses (including keys with leading zero bytes) through " +
 		"String/NewAddressFromString/JSON, then every single-character substitution (58 digits + 15 foreign characters), deletion, transposition, case flip and sampled insertions of the printed text, " +
 		"crafted texts with a correct checksum over arbitrary bytes, wrong prefixes/lengths, and random texts; base58 on random bytes with leading zeros. " +
@@ -884,6 +885,72 @@ func TestVerif_C32(t *testing.T) {
 			idx, ic = vC32RandIndex(rng)
 		}
 		s.ghost(w, masks[mi], maskClass[mi], idx, ic, i == 7 || i == 1000)
+	}
+
+	// the same derivations from many goroutines at once (a node derives and views keys from its RPC, validation
+	// and wallet paths concurrently): results are collected and judged afterwards by the sequential oracle's rules
+	{
+		type cc struct {
+			w       vC32Wallet
+			r       crypto.Key
+			index   uint64
+			P, B    *crypto.Key
+			x       *crypto.Key
+			paniced any
+		}
+		workers, per := 16, r.N(250, 4000)
+		cases := make([][]*cc, workers)
+		for g := range cases {
+			for k := 0; k < per; k++ {
+				idx, _ := vC32RandIndex(rng)
+				cases[g] = append(cases[g], &cc{w: pool[rng.Intn(len(pool))], r: masks[rng.Intn(len(masks))], index: idx})
+			}
+		}
+		var wg sync.WaitGroup
+		for g := range cases {
+			wg.Add(1)
+			go func(list []*cc) {
+				defer wg.Done()
+				for _, c := range list {
+					func() {
+						defer func() {
+							if e := recover(); e != nil {
+								c.paniced = e
+							}
+						}()
+						a := c.w.addr
+						R := c.r.Public()
+						c.P = crypto.DeriveGhostPublicKey(&c.r, &a.PublicViewKey, &a.PublicSpendKey, c.index)
+						c.x = crypto.DeriveGhostPrivateKey(&R, &a.PrivateViewKey, &a.PrivateSpendKey, c.index)
+						c.B = crypto.ViewGhostOutputKey(c.P, &a.PrivateViewKey, &R, c.index)
+					}()
+				}
+			}(cases[g])
+		}
+		wg.Wait()
+		for _, list := range cases {
+			for _, c := range list {
+				r.Eval()
+				r.Count("concurrent_ghost_derivations", 1)
+				wit := map[string]any{"private_spend": c.w.addr.PrivateSpendKey.String(), "private_view": c.w.addr.PrivateViewKey.String(), "r": c.r.String(), "index": c.index, "goroutines": workers}
+				if c.paniced != nil {
+					r.Violation("C32|concurrent|panic", fmt.Sprintf("a ghost derivation panicked when run concurrently: %v", c.paniced), wit)
+					continue
+				}
+				ref, err := vC32RefPublic(c.x)
+				if err != nil || *c.P != ref {
+					r.Violation("C32|concurrent|sender-key!=recipient-private*G", "with derivations running on 16 goroutines the sender's one-time key differs from x*G of the recipient's private key", wit)
+					continue
+				}
+				if *c.B != c.w.addr.PublicSpendKey {
+					r.Violation("C32|concurrent|viewed!=public-spend", "with derivations running on 16 goroutines viewing does not recover the recipient's public spend key", wit)
+					continue
+				}
+				var ib [8]byte
+				binary.BigEndian.PutUint64(ib[:], c.index)
+				r.Nontrivial("cg" + string(c.w.addr.PublicSpendKey[:10]) + string(c.r[:10]) + string(ib[:]))
+			}
+		}
 	}
 
 	// R1 hex-printed values, and accepted texts
